@@ -19,7 +19,7 @@ struct Params {
   Q opt(const std::string& n, Q dflt) const { auto it = m.find(n); return it == m.end() ? dflt : (Q)it->second; }
 };
 
-struct Pt { LD c[4]; bool special; Pt() : special(false) { c[0] = c[1] = c[2] = c[3] = 0; } Pt(LD x, LD y, LD z, LD t, bool sp = false) : special(sp) { c[0] = x; c[1] = y; c[2] = z; c[3] = t; } };  // x (or r, eta), y (or z for axisymmetric), z, t  -- jet variables 0..3
+struct Pt { LD c[4]; bool special; int variant = 0; Pt() : special(false) { c[0] = c[1] = c[2] = c[3] = 0; } Pt(LD x, LD y, LD z, LD t, bool sp = false) : special(sp) { c[0] = x; c[1] = y; c[2] = z; c[3] = t; } };  // x (or r, eta), y (or z for axisymmetric), z, t  -- jet variables 0..3
 
 // one expected observation of the library at a lattice element
 struct Expect {
@@ -31,7 +31,8 @@ struct Expect {
   int mode;          // 0: |lib-ref|<=K u S ; 1: exactly ref.v (sentinel -1) ; 2: NaN expected
   std::string alt_id; VS alt;  // optional known-finding signature: what the defective library computes
   bool special;      // special point: only finiteness is required
-  Expect() : idx(0), cb(-1), mode(0), special(false) { a[0] = a[1] = a[2] = a[3] = 0; }
+  bool has_cb_arg; VS cb_arg;  // C06: the argument the library must pass to the callback (exact temperature)
+  Expect() : idx(0), cb(-1), mode(0), special(false), has_cb_arg(false) { a[0] = a[1] = a[2] = a[3] = 0; }
 };
 
 struct System {
@@ -48,6 +49,8 @@ struct System {
   std::function<bool(const Params&, const Pt&, std::vector<Expect>&)> reference;
   // optional replacement of the generic deviation alphabet {default,0,-base,2*base+1/8}: (name, base, default) -> candidate values
   std::function<std::vector<LD>(const std::string&, LD, LD)> alphabet;
+  // optional discrete variant carried by lattice points (e.g. which data vector is installed): called before a point is evaluated
+  std::function<void(int)> apply_variant;
   // parameters that must never deviate independently (derived ones); engine keeps them at base
   std::vector<std::string> frozen;
   // optional hook run after every assignment change (e.g. re-derive dependent parameters)
